@@ -57,6 +57,31 @@ def install(w):
                                                  z3.Length(P.by(t)))))))
         raise Unsupported(f"len of {v!r}")
 
+    @b("dict")
+    def _dict(ex, args, kw, e, env):
+        """dict() / dict(d): a NEW dictionary (shallow copy).  Of a Py value only that it must be
+        a dictionary is known (TypeError otherwise); its contents stay abstract."""
+        S, P = ex.S, ex.P
+        if not args and not kw:
+            return ex.new_map()
+        if len(args) == 1 and not kw:
+            v = args[0]
+            if isinstance(v, Obj) and v.cls == "dict":
+                m = ex.new_map()
+                m.attrs.update({k: v.attrs[k] for k in ("dom", "val", "n")})
+                return m
+            if isinstance(v, Z) and v.t.sort() == S.Py:
+                ex.oblige("safety", "TypeError:dict-of-non-mapping", P.is_PDict(v.t),
+                          getattr(e, "lineno", None))
+                m = ex.new_map()
+                m.attrs["dom"] = ex.fresh("dict.dom", z3.ArraySort(S.Py, z3.BoolSort()))
+                m.attrs["val"] = ex.fresh("dict.val", z3.ArraySort(S.Py, S.Py))
+                n = ex.fresh("dict.n", z3.IntSort())
+                ex.assume(n >= 0)
+                m.attrs["n"] = n
+                return m
+        raise Unsupported("dict(...) of this form")
+
     @b("isinstance")
     def _isinstance(ex, args, kw, e, env):
         return Z(ex.isinstance_(args[0], args[1]))
@@ -516,7 +541,7 @@ def install(w):
     def _is_empty(ex, args, kw, e, env):
         return Z(ex.S.is_nil(ex.to_list(args[0])))
 
-    for tname in ("int", "bool", "float", "dict", "bytes"):
+    for tname in ("int", "bool", "float", "bytes"):
         def mk(tn):
             def conv(ex, args, kw, e, env):
                 raise Unsupported(f"{tn}() conversion")
@@ -946,4 +971,21 @@ def value_methods(ex, obj, name, args, kw, line):
             k = ex.to_py(args[0])
             d = ex.to_py(args[1]) if len(args) > 1 else P.PNone
             return Z(z3.If(z3.Select(obj.attrs["dom"], k), z3.Select(obj.attrs["val"], k), d))
+        if name == "items" and not args:
+            # iteration over the pairs of the dictionary: see loops.symbolic_seq
+            from .values import Bound
+            return Bound(obj, "__items__")
+        if name == "update" and len(args) == 1 and isinstance(args[0], Obj) and args[0].cls == "dict":
+            # d.update(o): pointwise, o wins where it is defined (the count becomes unknown)
+            o = args[0]
+            kq = z3.Const("k!upd", S.Py)
+            dom = z3.Lambda([kq], z3.Or(z3.Select(obj.attrs["dom"], kq), z3.Select(o.attrs["dom"], kq)))
+            val = z3.Lambda([kq], z3.If(z3.Select(o.attrs["dom"], kq), z3.Select(o.attrs["val"], kq),
+                                        z3.Select(obj.attrs["val"], kq)))
+            obj.attrs["dom"], obj.attrs["val"] = dom, val
+            n = ex.fresh("dict.n", z3.IntSort())
+            ex.assume(n >= obj.attrs["n"])
+            ex.assume(n >= o.attrs["n"])
+            obj.attrs["n"] = n
+            return Z(P.PNone)
     raise Unsupported(f"method .{name} on {obj!r}")
